@@ -147,9 +147,9 @@ async fn replay_verify_certificate() {
     let mut g = genesis.clone();
     g.signed_message = "00".repeat(32);
     assert!(verifier.verify_certificate(&g).await.is_err(), "tampered genesis accepted");
-    // a STANDARD certificate is never a chain root: whatever its previous_hash (empty, unknown, its own hash), verification
-    // must either fail or hand back the previous certificate to continue with
-    for forged_previous in ["".to_string(), "ff".repeat(32), c.hash.clone()] {
+    // a STANDARD certificate is never a chain root: with an empty or unknown previous_hash verification must fail
+    // (a previous_hash naming another certificate of the same epoch is a legitimate link and is not part of this scenario)
+    for forged_previous in ["".to_string(), "ff".repeat(32)] {
         let mut x = c.clone();
         x.previous_hash = forged_previous.clone();
         x.hash = x.try_compute_hash().unwrap();
@@ -168,9 +168,19 @@ async fn replay_verify_genesis_certificate() {
     let (verifier, certs) = verifier_and_chain();
     let genesis = certs.last().unwrap().clone();
     assert!(verifier.verify_genesis_certificate(&genesis).await.is_ok());
-    let other = CertificateChainBuilder::new().with_total_certificates(2).with_certificates_per_epoch(1).build();
-    let foreign_genesis = other.certificates_chained.last().unwrap().clone();
-    assert!(verifier.verify_genesis_certificate(&foreign_genesis).await.is_err(), "genesis certificate signed with another genesis key accepted");
+    // the chain builder's genesis key is a fixed-seed one, so "another genesis key" is a freshly generated one: the honest genesis
+    // certificate presented to a verifier configured with that other key must be rejected
+    let other_genesis_verifier = crate::crypto_helper::GenesisSigner::from_ed25519(crate::crypto_helper::GenesisEd25519Signer::create_non_deterministic_signer()).create_verifier();
+    let other_verifier = MithrilCertificateVerifier::new(
+        TestLogger::stdout(),
+        std::sync::Arc::new(FakeCertificaterRetriever::from_certificates(&certs)),
+        std::sync::Arc::new(other_genesis_verifier),
+    );
+    assert!(other_verifier.verify_genesis_certificate(&genesis).await.is_err(), "genesis certificate accepted under a genesis verification key that did not sign it");
+    let mut tampered = genesis.clone();
+    tampered.signed_message = "cd".repeat(32);
+    tampered.hash = tampered.try_compute_hash().unwrap();
+    assert!(verifier.verify_genesis_certificate(&tampered).await.is_err(), "genesis certificate with another signed message accepted");
     assert!(verifier.verify_genesis_certificate(&certs[0]).await.is_err(), "standard certificate accepted as genesis");
 }
 
@@ -184,4 +194,61 @@ fn replay_verify_standard_certificate_integrity() {
     let mut x = c.clone(); x.epoch = x.epoch + 1;
     assert!(verifier.verify_standard_certificate_integrity(&x).is_err(), "epoch not in signed message accepted");
     assert!(verifier.verify_standard_certificate_integrity(certs.last().unwrap()).is_err(), "genesis accepted as standard");
+}
+
+/// dispatcher in front of the concatenation check (feature future_snark adds a second branch): same scenarios
+#[test]
+fn replay_verify_aggregate_verification_key_chaining() {
+    let (verifier, certs) = verifier_and_chain();
+    for w in certs.windows(2) {
+        let (c, p) = (&w[0], &w[1]);
+        assert!(verifier.verify_aggregate_verification_key_chaining(c, p).is_ok(), "honest link rejected");
+        for other in certs.iter() {
+            if other.aggregate_verification_key != c.aggregate_verification_key {
+                let mut forged = c.clone();
+                forged.aggregate_verification_key = other.aggregate_verification_key.clone();
+                assert!(verifier.verify_aggregate_verification_key_chaining(&forged, p).is_err(), "aggregate key not committed by the previous certificate accepted");
+            }
+        }
+    }
+}
+
+/// the chain walk (default method of the trait): from every certificate of the honest chain the walk ends at the genesis
+/// certificate; a chain in which ANY certificate on the walk is tampered with (re-hashed so that only the signature / link
+/// checks can notice), or whose genesis certificate is missing, is rejected
+#[tokio::test]
+async fn replay_verify_certificate_chain() {
+    let (verifier, certs) = verifier_and_chain();
+    for c in certs.iter() {
+        assert!(verifier.verify_certificate_chain(c.clone()).await.is_ok(), "honest chain rejected from {}", c.hash);
+    }
+    // the walk from certs[0], following previous_hash
+    let mut walk = vec![certs[0].clone()];
+    while !walk.last().unwrap().is_genesis() {
+        let prev_hash = walk.last().unwrap().previous_hash.clone();
+        walk.push(certs.iter().find(|c| c.hash == prev_hash).expect("chain builder: previous certificate missing").clone());
+    }
+    assert!(walk.len() >= 3, "the walk is expected to cross at least one epoch boundary");
+    for (position, victim) in walk.iter().enumerate().skip(1) {
+        // the victim's signed message is changed and its hash recomputed; its child is re-linked to the new hash and re-hashed,
+        // and so on up to the start: every hash link is consistent, only signatures are not
+        let mut forged_walk: Vec<Certificate> = walk.clone();
+        forged_walk[position].signed_message = "ab".repeat(32);
+        forged_walk[position].hash = forged_walk[position].try_compute_hash().unwrap();
+        for i in (0..position).rev() {
+            forged_walk[i].previous_hash = forged_walk[i + 1].hash.clone();
+            forged_walk[i].hash = forged_walk[i].try_compute_hash().unwrap();
+        }
+        let retriever = FakeCertificaterRetriever::from_certificates(&forged_walk);
+        let chain = CertificateChainBuilder::new().with_total_certificates(5).with_certificates_per_epoch(2).build();
+        let forged_verifier = MithrilCertificateVerifier::new(TestLogger::stdout(), std::sync::Arc::new(retriever), std::sync::Arc::new(chain.genesis_verifier.clone()));
+        assert!(forged_verifier.verify_certificate_chain(forged_walk[0].clone()).await.is_err(),
+                "chain ACCEPTED although the certificate at position {} of the walk (of {}) was tampered with", position, walk.len());
+    }
+    // genesis certificate not retrievable: the walk cannot end, the chain is rejected
+    let without_genesis: Vec<Certificate> = walk.iter().filter(|c| !c.is_genesis()).cloned().collect();
+    let retriever = FakeCertificaterRetriever::from_certificates(&without_genesis);
+    let chain = CertificateChainBuilder::new().with_total_certificates(5).with_certificates_per_epoch(2).build();
+    let short_verifier = MithrilCertificateVerifier::new(TestLogger::stdout(), std::sync::Arc::new(retriever), std::sync::Arc::new(chain.genesis_verifier.clone()));
+    assert!(short_verifier.verify_certificate_chain(walk[0].clone()).await.is_err(), "chain accepted although its genesis certificate cannot be retrieved");
 }
